@@ -6,6 +6,16 @@ def case_for_c03(rng):
     c = A.random_case(rng)
     c['iters'] = rng.choice([1, 1, 2, 2, 3, 5, 10, 40, 100])
     c['eps'] = rng.choice([1.5, 1.0, 0.7, 0.3, 0.1, 0.03, 0.01, 1e-3, 1e-6])
+    if c['n'] > 1 and rng.random() < 0.5:
+        c['density'] = rng.choice([2, 3, 3, 5])      # coarse grids: several curve points share one grid point
+    return c
+
+
+def case_for_oracle(rng):
+    c = case_for_c03(rng)
+    if rng.random() < 0.35:
+        c['refine'] = True
+        c['iters'] = rng.choice([20, 40, 60, 100]); c['eps'] = rng.choice([1e-7, 1e-3, 0.05])
     return c
 
 
@@ -15,8 +25,8 @@ def run(chk):
     S.proof(chk, 'C03')
     bad, errors = S.lockstep(chk, rng, 240 if thorough else 60, make_case=case_for_c03, make_script=lambda r, c: [('solve',)])
     found = 0
-    for _ in range(300 if thorough else 60):
-        case = case_for_c03(rng)
+    for _ in range(300 if thorough else 70):
+        case = case_for_oracle(rng)
         fails = O.guarded(O.c03, case)
         chk.evaluations += 1
         chk.nontrivial += 1
